@@ -252,7 +252,7 @@ def _worker(hists):
 
 def replay_behaviours(ctx, prop, quick):
     histlen = 16 if quick else 20
-    want = 2000 if quick else 30000
+    want = 2000 if quick else 10000
     res = tlc.run(ctx, "WorkQSim", sim_cfg(prop, histlen), name="sim_replay", simulate=max(2, want // 200),   # TLC emits roughly 240 behaviours per unit of num here
                  
                   depth=histlen + 1, workers=ctx.ncpu, timeout=2400, heap="20g")
@@ -272,13 +272,10 @@ def replay_behaviours(ctx, prop, quick):
     hists = hists + bfs.emitted
     ctx.set_cover(replay_exhaustive_length=klen, replay_exhaustive_behaviours=len(bfs.emitted), replay_simulated_behaviours=n_sim)
     items = list(enumerate(hists))
-    pool = multiprocessing.get_context("fork").Pool(ctx.ncpu)
-    try:
-        parts = [items[k::ctx.ncpu * 2] for k in range(ctx.ncpu * 2)]
-        results = [x for part in pool.map(_worker, [p for p in parts if p]) for x in part]
-    finally:
-        pool.close()
-        pool.join()
+    from .common import pool_map
+    nparts = max(ctx.ncpu * 2, len(items) // 400)
+    parts = [items[k::nparts] for k in range(nparts)]
+    results = [x for part in pool_map(ctx, _worker, [p for p in parts if p]) for x in part]
     steps = 0
     agreed = 0
     for idx, r in results:
